@@ -1,6 +1,6 @@
 (* Props/C02.v — C02: end-of-stream follows all data; half-close; tear-down. *)
 From Coq Require Import List NArith Ascii Bool Lia.
-From SV Require Import Model.StreamQuiet Proofs.Stream_quiet Model.StreamDrain Proofs.Stream_drain Lib.Bytes Model.Wire Model.Chan Model.Stream
+From SV Require Import Model.StreamQuiet Proofs.Stream_quiet Model.StreamDrain Proofs.Stream_drain Proofs.Stream_drain_clean Lib.Bytes Model.Wire Model.Chan Model.Stream
   Proofs.Stream_basic Proofs.Stream_wrap Proofs.Stream_cb Proofs.Stream_reg Proofs.Stream_view
   Proofs.Stream_flow Proofs.Stream_props Gen.Consts.
 Import ListNotations.
@@ -175,4 +175,57 @@ Theorem c02_drain_schedule :
 Proof. exact eager_drain_sched. Qed.
 Print Assumptions c02_drain_schedule.
 
+(* (f) ... WITHOUT the escape clause "or a stale delivery happened" (Proofs/Stream_drain_clean.v).
+   Dropping it unconditionally is false of the model (C01: c01_drain_unconditional_refuted — a frame
+   of an older incarnation of an identifier already on the way to its newer holder); it holds under
+   the boolean hypothesis drain_cleanb w (stated in C01 (3d); implied by no_reuseb w: no identifier
+   used twice so far): the drain makes no stale delivery and ends strictly quiescent, where nothing is
+   undelivered and no half-open flow waits for a peer that is gone or that waits for it. *)
+Theorem c02_eventually_not_stuck_clean :
+  forall maxc lbs evs w, run (world0 maxc lbs) evs = Ok w -> w_stale w = false -> drain_cleanb w = true ->
+  exists w', Forall eager_event (drain_of w) /\ run w (drain_of w) = Ok w' /\
+    w_stale w' = false /\ quiescent_eagerb w' = true /\
+    (forall rs f, let v := view_of w' rs f in
+       vfz v = false -> vY v = [] /\ vP v = [] /\ flat (vX v) = [] /\ vD v = vA v) /\
+    (forall sd f p, e_prox (get_end w' sd) f = Some p -> active p = true ->
+       waits_outside sd f p (e_mux (get_end w' sd)) \/
+       (m_sw (p_m p) = true /\ m_sr (p_m p) = false /\
+        exists q, e_prox (get_end w' (other sd)) f = Some q /\ active q = true /\
+                  m_sr (p_m q) = true /\ m_sw (p_m q) = false /\
+                  waits_outside (other sd) f q (e_mux (get_end w' (other sd))))).
+Proof. exact dc_c02_eventually_not_stuck. Qed.
+Print Assumptions c02_eventually_not_stuck_clean.
 
+Theorem c02_drain_schedule_clean :
+  forall maxc lbs evs w, run (world0 maxc lbs) evs = Ok w -> w_stale w = false -> drain_cleanb w = true ->
+  Forall eager_event (drain_of w) /\
+  match run w (drain_of w) with
+  | Ok w' => w_stale w' = false /\ quiescent_eagerb w' = true
+  | Crash _ => False
+  end.
+Proof. exact eager_drain_clean. Qed.
+Print Assumptions c02_drain_schedule_clean.
+
+(* the hypothesis cannot be weakened to nothing: each of its clauses has a witness (MAX_CHANNEL = 1)
+   of a reachable state without stale delivery that violates only that clause and whose drain makes
+   a stale delivery — (a) a frame of the old flow on the way to the client, (b) unsent bytes in the
+   closed client end, (c) a frame of the old flow behind the new CONNECT, (d) unsent bytes in the
+   server end that the frames on the way are about to close *)
+Example c02_ex_clean_clauses_needed :
+  (match run (world0 1 32768) dc_stale with
+   | Ok w => w_stale w = false /\ drain_cleanb w = false /\
+             match run w (drain_of w) with Ok w' => w_stale w' = true | Crash _ => False end
+   | Crash _ => False end) /\
+  (match run (world0 1 32768) dc_stale_b with
+   | Ok w => w_stale w = false /\ drain_cleanb w = false /\
+             match run w (drain_of w) with Ok w' => w_stale w' = true | Crash _ => False end
+   | Crash _ => False end) /\
+  (match run (world0 1 32768) (dc_stale_b ++ [EvCallback Client 0 dc_io0]) with
+   | Ok w => w_stale w = false /\ drain_cleanb w = false /\
+             match run w (drain_of w) with Ok w' => w_stale w' = true | Crash _ => False end
+   | Crash _ => False end) /\
+  (match run (world0 1 32768) dc_stale_d with
+   | Ok w => w_stale w = false /\ drain_cleanb w = false /\
+             match run w (drain_of w) with Ok w' => w_stale w' = true | Crash _ => False end
+   | Crash _ => False end).
+Proof. vm_compute. splits; reflexivity. Qed.
